@@ -25,9 +25,13 @@ example : fromDict (toDict (.node 1 ['a'] ['-', '1'] 0 1 true (some ['t', 'y', '
     = .ok (.node 1 ['a'] ['-', '1'] 0 1 true (some ['t', 'y', 'p']) [.term ['x'] []]) :=
   dict_roundtrip _ (by simp [DictOK, typeOK]) rfl (by simp [topCheck, Node.dtrs, Node.isRoot])
 
-/-- "terminals, preterminals and internal nodes partition its nodes" (1/2): on trees whose nodes have
-either one terminal daughter or only non-terminal daughters, the three lists together are a
-rearrangement of the list of all nodes (with multiplicity). -/
+/-- "terminals, preterminals and internal nodes partition its nodes" (1/2), ON SHAPE TREES: if every
+node has either exactly one terminal daughter or only non-terminal daughters (`Shape`, the shape of
+well-formed derivations: "terminals should always be single daughters"), the three lists together
+are a rearrangement of the list of all nodes (with multiplicity).  Without `Shape` this is false of
+the model and of the code alike (`nodes_partition_needs_shape`): `preterminals()` appends `self` once
+per terminal daughter, and `internals()` returns nothing for a node that has any terminal daughter,
+dropping the internal nodes below a mixed node; on such trees only `nodes_classes` holds. -/
 theorem nodes_partition (t : Node) (h : Shape t = true) :
     (terminals t ++ preterminals t ++ internals t).Perm (allNodes t) :=
   partition_perm t h
@@ -84,13 +88,14 @@ example : WF (.root ['r'] [.node 1 ['a'] ['-', '1'] 0 2 true (some ['t'])
     [.node 2 ['b'] ['0'] 0 1 false none [.term ['x'] [⟨1, ['t', ' ', '\\', '"', 'q', '\\', '"']⟩]],
      .node 3 ['c'] ['0'] 1 2 false none [.term ['y'] []]]]) = true := by decide
 
-/-- "… and serializing it again, at any indentation, reproduces the text": the tree a reader of the
-text gets (`view`) serializes, at every indentation `j`, to the text of the original. -/
-theorem reserialize (udx : Bool) (j : Option Nat) (t : Node) :
-    toUdf udx j (view udx t) = toUdf udx j t := by
-  cases udx with
-  | true => rfl
-  | false => simp only [view, toUdf, Bool.false_eq_true, if_false, inner_eraseHT]
+/-- … and the same tree passes the constructor check, so every hypothesis of `udf_roundtrip` holds of it -/
+example : topCheck (.root ['r'] [.node 1 ['a'] ['-', '1'] 0 2 true (some ['t'])
+    [.node 2 ['b'] ['0'] 0 1 false none [.term ['x'] [⟨1, ['t', ' ', '\\', '"', 'q', '\\', '"']⟩]],
+     .node 3 ['c'] ['0'] 1 2 false none [.term ['y'] []]]])
+  = .ok (.root ['r'] [.node 1 ['a'] ['-', '1'] 0 2 true (some ['t'])
+    [.node 2 ['b'] ['0'] 0 1 false none [.term ['x'] [⟨1, ['t', ' ', '\\', '"', 'q', '\\', '"']⟩]],
+     .node 3 ['c'] ['0'] 1 2 false none [.term ['y'] []]]]) := by
+  simp [topCheck, Node.dtrs, Node.isRoot, Node.isTerm]
 
 /-- `_udf_tokens` (a `findall` over the raw token text) recovers exactly the tokens of a terminal,
 for tfs strings with escaped quotes and backslashes, whatever white space separates them. -/
@@ -133,6 +138,16 @@ theorem fromString_top_daughters_not_root (s : Str) (t : Node) (h : fromString s
   · cases h
 
 
+/-- `Shape` is needed: a preterminal with two terminal daughters is listed twice by `preterminals`
+(the real code does the same; compared on the multi-terminal trees of every run), and the internal
+node below a mixed node is lost by `internals`. -/
+theorem nodes_partition_needs_shape :
+    (preterminals (.node 1 ['a'] ['0'] 0 2 false none [.term ['x'] [], .term ['y'] []])).length = 2
+    ∧ (allNodes (.node 1 ['a'] ['0'] 0 2 false none [.term ['x'] [], .term ['y'] []])).length = 3
+    ∧ (internals (.node 1 ['a'] ['0'] 0 2 false none
+        [.term ['x'] [], .node 2 ['b'] ['0'] 0 1 false none [.node 3 ['c'] ['0'] 0 1 false none [.term ['y'] []]]])).length = 0 := by
+  decide
+
 /-- "terminals, preterminals and internal nodes partition its nodes" (2/2): the three lists hold
 nodes of three mutually exclusive kinds — terminals; non-terminals with a terminal daughter;
 non-terminals without one — so no node is in two of them (any tree, no shape hypothesis). -/
@@ -174,17 +189,31 @@ theorem fromDict_inner_root_witness :
      | .ok t => NoRootL t.dtrs
      | .error _ => true) = false := by decide
 
-/-- "each node's parent is the node that lists it as a daughter" (model level): run the stack
-machine of `_from_string` with an annotation layer that numbers every pushed frame and records, for
+/-- "each node's parent is the node that lists it as a daughter", for `from_string`: the stack
+machine is run with an annotation layer (`runP`) that numbers every pushed frame and records, for
 every node and terminal at creation, the number of the frame then on top of the stack (the
 `parent=stack[-1]` argument; root symbols are created without a parent).  For EVERY match list —
-well-formed text or not — the annotation layer does not change the result of `run`, and in the tree
-returned every terminal and every non-root node names as its parent exactly the node whose daughters
-list it was appended to (`Cons`). -/
+well-formed text or not — (1) the annotation layer does not change the result of `run`; (2) in the
+tree returned every terminal and every non-root node names as its parent exactly the node whose
+daughters list it was appended to (`Cons`); (3) the frame numbers of the tree are pairwise distinct,
+so "the node numbered u" is one node.  The layer is tied to the code: the driver emits
+`(number, recorded parent)` per node and the run compares it with the real `.parent` objects of
+`from_string`'s result on every tree and text case. -/
 theorem parent_spec (evs : List Ev) :
     (runP evs 0 []).map Prod.snd = run evs [] ∧
-    ∀ t, runP evs 0 [] = .ok t → Cons t.1 = true :=
-  ⟨runP_snd evs 0 [], fun t h => runP_consistent evs 0 [] t trivial h⟩
+    ∀ t, runP evs 0 [] = .ok t → Cons t.1 = true ∧ (uids t.1).Nodup :=
+  ⟨runP_snd evs 0 [], fun t h =>
+    ⟨runP_consistent evs 0 [] t trivial h,
+     runP_uids_nodup evs 0 [] t ⟨by simp [stackUids], by simp [stackUids], by simp⟩ h⟩⟩
+
+/-- "each node's parent is the node that lists it as a daughter", for `from_dict`: in the annotation
+layer of `_from_dict(d, parent)` (`fromDictP`: the node is created with `parent=parent`, its daughters
+and its merged terminal with `parent=n`) every node and terminal below the top names as its parent
+the node that lists it.  Tied to the code like `parent_spec` (key `par_fd` of the comparison).
+Distinctness of the numbers is not proved for this layer (they are consecutive by construction). -/
+theorem parent_spec_dict (d : D) (c : Nat) (a : ANode) (c' : Nat)
+    (h : fromDictP d c none = some (a, c')) : Cons a = true :=
+  (fromDictP_cons d c none a c' h).1
 
 /-! ## Pins: the constants of `delphin/derivation.py` that the hand-written model mirrors
 
